@@ -47,6 +47,12 @@ fn run<T: Sc>(case: &C16Case) -> Check {
         Err(e) => return Err(Fail::new("c16.rejected", format!("a valid specification was rejected: {e:?}"))),
     };
     let exp = Expected::of(&case.prog);
+    if exp.n == 0 {
+        out.class("N=0");
+    }
+    if case.prog.calls.iter().any(|c| matches!(c, super::bprog::Call::XFrom { .. })) {
+        out.class("x-grid-overridden");
+    }
     if model.parameters() != case.prog.model_names.as_slice() {
         return Err(Fail::new("c16.parameters", format!("parameters() = {:?}, declared {:?}", model.parameters(), case.prog.model_names)));
     }
@@ -117,7 +123,7 @@ impl Property for C16 {
     fn cases(&self, tier: Tier) -> usize {
         match tier {
             Tier::Quick => 500_000,
-            Tier::Thorough => 3_000_000,
+            Tier::Thorough => 20_000_000,
         }
     }
     fn strategy(&self, _tier: Tier) -> BoxedStrategy<C16Case> {
@@ -126,7 +132,9 @@ impl Property for C16 {
                 // 1 of 64 models is large: 60..139 parameters (more than 64, more than 128)
                 let l = if l % 64 == 1 { 60 + pick(l.rotate_left(5), 80) } else if l % 4 == 0 { 10 } else { 1 + pick(l, 10) };
                 let max_arity = if ma % 4 == 0 { 10 } else { 1 + pick(ma, 10) };
-                let prog = valid_program(&us, l, 1 + pick(mf, 4), max_arity, 1 + pick(us[0], 6));
+                // (1 of 64 models has an empty independent variable: 0 x M matrices)
+                let n = if us[0] % 64 == 5 { 0 } else { 1 + pick(us[0], 6) };
+                let prog = valid_program(&us, l, 1 + pick(mf, 4), max_arity, n);
                 let alphas = alphas.into_iter().map(|v| (0..l).map(|i| v[i % v.len()] + 41 * (i as i32 % 2) + (i / 10) as i32).collect()).collect();
                 C16Case { prog, alphas, f32 }
             })
